@@ -368,14 +368,12 @@ theorem frozen_cow_equals_twin_partial (X₀ : Ctx) (h : Heap) (r : Ref)
   simp only
   rw [deepcopy_congr (sameButFrozen_twin X₀)]
 
-/-- OPEN (not proved): the statement for every copy-on-write operation.  The
-traces differ (the frozen side logs the `setThaw` writes of `thawed`), so only
-result and heap are compared, with `budget = none`.  Missing ingredient: a
-simulation between the two runs in which the frozen guards
-(`mutateAttr`, `delAttr`, `getCollection`) are shown to see `thaw = true`
-inside every `thawed X v body`, for which one needs that `body` does not close
-the window of `v` itself and that the value handed to `thawed` is a settled
-instance (false for heaps with dangling references, cf. section 3). -/
+/-- The statement for every copy-on-write operation; it is **proved** as
+`frozen_cow_equals_twin` in `Props/C07Twin.lean` (two-run simulation in
+`Proofs/HeapTwin.lean`: the only difference between the runs are the thaw
+windows, inside which the frozen guards see the marker).  The traces differ
+(the frozen side logs the `setThaw` writes of `thawed`), so result and final
+heap are compared, with `budget = none`. -/
 def frozen_cow_equals_twin_Full : Prop :=
   ∀ (X₀ : Ctx) (h : Heap) (op : Op) (φ : List (CbKind × Nat)),
     NoClassDnc X₀ → AllSettled h → HeapClosed h → RefsBelow h.length (opRefs op) →
